@@ -81,3 +81,22 @@ import warnings; warnings.simplefilter('ignore')
 for nm, f in [('C06 isolated', c06_isolated_fixed), ('C06 singular', c06_singular_moves_fixed), ('C13 se2 offs', c13_se2_landmark_offset),
               ('C13 se3 parm', c13_se3_landmark_params), ('C17', c17), ('C18', c18)]:
     attempt(nm, f)
+
+
+def c18_single_information_number():
+    """fixed by b914dcc: a one-number information block used to be broadcast to the whole matrix"""
+    import tempfile, os
+    from graphslam.graph import Graph
+    p = os.path.join(tempfile.gettempdir(), 'verif_repro_c18.g2o')
+    open(p, 'w').write('VERTEX_SE2 1 0 0 0\nVERTEX_SE2 2 1 0 0\nEDGE_SE2 1 2 1 0 0 1\n')
+    try:
+        g = Graph.from_g2o(p)
+        print('C18 g2o 1x1    ACCEPTED, information =', g._edges[0].information.tolist())
+    except Exception as ex:  # noqa
+        print('C18 g2o 1x1    RAISED %s: %s' % (type(ex).__name__, ex))
+    finally:
+        os.remove(p)
+
+
+if __name__ == '__main__':
+    c18_single_information_number()
